@@ -236,6 +236,7 @@ let handle_case pid tag nrew depth nfaults rseed fwant choices =
   let p = Gen.gen_program choices in
   let base = pid ^ ".b" in
   Printf.printf "M %s fellback %b\n" base fell;
+  Printf.printf "M %s nodup_nids %b\n" base (Walk.nodup_nids p);
   emit_program base (tag * 64) p [];
   for k = 1 to nrew do
     let (q, rs) = rewrite_chain p depth (depth * 16) [] in
